@@ -136,13 +136,17 @@ def run(project, chk):
     pcfg = build_cfg(parse.node)
     pG = guard_states(pcfg)
     n_ctx = 0
+    from sa.resolve import local_aliases as _la, unalias as _ua
+    p_aliases = _la(parse.node)
     for pn in pcfg.nodes:
         for e in node_exprs(pn):
             for x in ast.walk(e):
-                if isinstance(x, ast.Attribute) and x.attr in ("rgb", "_rgb") and isinstance(x.ctx, ast.Load) and norm_text(x.value) == "self.background_context":
+                if isinstance(x, ast.Attribute) and x.attr in ("rgb", "_rgb") and isinstance(x.ctx, ast.Load) and norm_text(_ua(x.value, p_aliases)) == "self.background_context":
                     n_ctx += 1
                     lits = common_literals(pG.get(pn.id))
-                    extra = sorted(t for (t, v) in lits if not (t.startswith("self.background_context") or t in ("self._parsed", "self._parsed is True", "self._parsed is False")))
+                    own = {a for a, tgt in p_aliases.items() if norm_text(tgt) == "self.background_context"} if isinstance(p_aliases, dict) else set()
+                    extra = sorted(t for (t, v) in lits if not (t.startswith("self.background_context") or t in ("self._parsed", "self._parsed is True", "self._parsed is False")
+                                                                 or any(t == a or t.startswith(a + ".") or t.startswith(a + " ") for a in own)))
                     chk.check(not extra, "W2", parse.short, norm_text(x), project.loc(parse.module, x), "the context's rgb is taken whenever a valid context was given",
                               how=f"guards: {sorted(lits)}",
                               message=f"the context's rgb is only taken when `{extra[0] if extra else ''}` also holds: other translucent spellings (RGBA tuples, `rgb(r g b / a)`, four bare numbers) are composited over white instead of the pair's own background")
